@@ -61,7 +61,7 @@ static void finish(const char *why)
 }
 
 /* ------------------------------------------------------------------ objects */
-struct fdo { struct iv_fd *o; int fd, peer; int exists; int isreg; char kind[8]; };
+struct fdo { struct iv_fd *o; int fd, peer; int exists; int isreg; int bad; char kind[8]; };
 struct tmo { struct iv_timer *o; int exists; };
 struct tko { struct iv_task *o; int exists; };
 struct evo { struct iv_event *o; int exists; int isreg; };
@@ -182,6 +182,7 @@ static void mk_fd(int i, const char *kind)
 	if (!strcmp(kind, "bad")) {
 		F[i].fd = 900 + i;	/* never opened: EBADF / POLLNVAL */
 		F[i].peer = -1;
+		F[i].bad = 1;
 	} else if (!strcmp(kind, "pipe-r") || !strcmp(kind, "pipe-w")) {
 		if (pipe(sv) < 0) finish("HARNESS-ERROR pipe");
 		if (!strcmp(kind, "pipe-r")) { F[i].fd = sv[0]; F[i].peer = sv[1]; }
@@ -271,7 +272,7 @@ static void one_action(char *act)
 		F[i].o->handler_err = (a2 && a2[2] == '1') ? h_err : NULL;
 		logf_("API %s f%d %d %d %d\n", op[0] == 'r' ? "fdRegister" : "fdRegisterTry", i,
 		      F[i].o->handler_in != NULL, F[i].o->handler_out != NULL, F[i].o->handler_err != NULL);
-		if (F[i].fd < 900) {	/* start from a blocking, inheritable descriptor so that the library has to change it */
+		if (!F[i].bad) {	/* start from a blocking, inheritable descriptor so that the library has to change it */
 			fcntl(F[i].fd, F_SETFL, fcntl(F[i].fd, F_GETFL) & ~O_NONBLOCK);
 			fcntl(F[i].fd, F_SETFD, 0);
 		}
@@ -284,7 +285,7 @@ static void one_action(char *act)
 			F[i].isreg = (r == 0);
 			logf_("RET %d\n", r ? -1 : 0);
 		}
-		if (F[i].isreg && F[i].fd < 900)
+		if (F[i].isreg && !F[i].bad)
 			logf_("FDFLAGS f%d nonblock=%d cloexec=%d kind=%s\n", i, !!(fcntl(F[i].fd, F_GETFL) & O_NONBLOCK), !!(fcntl(F[i].fd, F_GETFD) & FD_CLOEXEC), F[i].kind);
 	} else if (!strcmp(op, "unreg")) {
 		i = objnum(a1, 'f');
@@ -451,10 +452,10 @@ static void one_action(char *act)
 		if (F[i].peer >= 0) { char b[64]; int n = a2 ? atoi(a2) : 1; memset(b, 'y', sizeof(b)); if (write(F[i].peer, b, n > 64 ? 64 : n) < 0) {} }
 	} else if (!strcmp(op, "rd")) {
 		i = objnum(a1, 'f');
-		if (F[i].exists && F[i].fd < 900) drain_fd(F[i].fd);
+		if (F[i].exists && !F[i].bad) drain_fd(F[i].fd);
 	} else if (!strcmp(op, "fill")) {
 		i = objnum(a1, 'f');
-		if (F[i].exists && F[i].fd < 900) fill_fd(F[i].fd);
+		if (F[i].exists && !F[i].bad) fill_fd(F[i].fd);
 	} else if (!strcmp(op, "unfill")) {
 		i = objnum(a1, 'f');
 		if (F[i].peer >= 0) drain_fd(F[i].peer);
@@ -464,6 +465,19 @@ static void one_action(char *act)
 	} else if (!strcmp(op, "shutpeer")) {
 		i = objnum(a1, 'f');
 		if (F[i].peer >= 0) shutdown(F[i].peer, SHUT_WR);
+	} else if (!strcmp(op, "heal")) {
+		/* the descriptor number a failed registration was attempted on becomes a valid descriptor (the application opened
+		 * something that landed on that number); the iv_fd struct is NOT re-initialised */
+		i = objnum(a1, 'f');
+		if (F[i].exists == 1 && F[i].bad && !iv_fd_registered(F[i].o)) {
+			int sv[2];
+			if (socketpair(AF_UNIX, SOCK_STREAM, 0, sv) == 0 && dup2(sv[0], F[i].fd) == F[i].fd) {
+				close(sv[0]);
+				F[i].peer = sv[1];
+				F[i].bad = 0;
+				snprintf(F[i].kind, sizeof(F[i].kind), "healed");
+			}
+		}
 	} else if (!strcmp(op, "nop")) {
 	} else {
 		logf_("HARNESS-ERROR unknown action %s\n", op);
